@@ -192,6 +192,19 @@ def g_recipient(ch, label="rcp", depth=0):
     return r
 
 
+def n_recipient_keys(ch, root):
+    """several dynamic `recipients*` keys in one recipient, in description order that is not the sorted order."""
+    leaf = {"protected": {}, "unprotected": {"suit-cose-algorithm-id": "cose-alg-direct", "suit-cose-key-id": 1}, "ciphertext": None}
+    leaf2 = {"protected": {}, "unprotected": {"suit-cose-algorithm-id": "cose-alg-a128kw", "suit-cose-key-id": 2}, "ciphertext": "aabb"}
+    keys = ch.choose("keys", [["recipients"], ["recipients2", "recipients1"], ["recipientsB", "recipientsA", "recipients"]])
+    rcp = {"protected": {}, "unprotected": {"suit-cose-algorithm-id": "cose-alg-a256kw"}, "ciphertext": "00"}
+    for i, k in enumerate(keys):
+        rcp[k] = [copy.deepcopy(leaf if i % 2 == 0 else leaf2)]
+    e = {"CoseEncryptTagged": {"protected": {"suit-cose-algorithm-id": "cose-alg-aes-gcm-256"}, "unprotected": {"suit-cose-iv": "00" * 12},
+                               "ciphertext": None, "recipients": [rcp]}}
+    return in_params({"suit-parameter-encryption-info": e}), {}
+
+
 def g_cose_encrypt(ch, label="enc"):
     e = {"protected": {"suit-cose-algorithm-id": ch.choose(label + ".alg", ENCALGS)}}
     iv = ch.choose(label + ".iv", [12, None, 0, 23, 24])
@@ -461,11 +474,20 @@ def n_parameters(ch, root):
 
 
 def n_auth(ch, root):
-    n = ch.choose("nblocks", [1, 0, 2])
+    n = ch.choose("nblocks", [1, 0, 2, 3, 11])
     d = minimal(alg=ch.choose("alg", ALG5))
     aw = d["SUIT_Envelope_Tagged"]["suit-authentication-wrapper"]
+    naming = ch.choose("naming", ["from0", "from1", "descending", "free-form"]) if n >= 2 else "from0"
+    names = {"from0": [f"SuitAuthentication{i}" for i in range(n)],
+             "from1": [f"SuitAuthentication{i + 1}" for i in range(n)],          # as parse numbers them (10 sorts before 2)
+             "descending": [f"SuitAuthentication{n - i}" for i in range(n)],
+             "free-form": [f"SuitAuthentication{x}" for x in ("Vendor", "Oem", "Backup", "Zeta", "Alpha", "b", "a", "_", "9", "10", "1")[:n]]}[naming]
     for i in range(n):
-        aw[f"SuitAuthentication{i}"] = g_auth_block(ch, f"b{i}")
+        if i < 2:
+            aw[names[i]] = g_auth_block(ch, f"b{i}")
+        else:
+            aw[names[i]] = {"CoseSign1Tagged": {"protected": {"suit-cose-algorithm-id": SIGALGS[i % 5], "suit-cose-key-id": i},
+                                                "unprotected": {}, "payload": None, "signature": hexs(8 + i, i)}}
     return d, {}
 
 
@@ -575,6 +597,7 @@ NODE_SCENARIOS = {
     "two-key-command": n_two_key_command,
     "parameters": n_parameters,
     "auth": n_auth,
+    "recipient-keys": n_recipient_keys,
     "text": n_text,
     "version": n_version,
     "envelope": n_envelope,
